@@ -7,7 +7,7 @@
             [repaired] selects the variant in which encodeCSV also sets Quote for texts containing
             CR or LF (the proposed fix); the harness detects which variant the tree implements.
             The line break after the last record is appended by the callers (COMMIT:
-            transaction.go:160-164 with the *flag's* line break, SELECT output: processor.go:226).
+            transaction.go with the file's own line break, SELECT output: processor.go with the session's).
    Reader : go-text csv/reader.go (parseRecord / parseField) re-expressed as one left-to-right
             machine over the decoded code points, and csvq's loadViewFromCSVFile
             (lib/query/load_view.go:1082-1159): header, c1..cn, allow-uneven-fields padding and
@@ -93,8 +93,11 @@ Definition csv_encode (o : wopts) (hdr : list str) (rows : list (list cell)) : o
   end.
 
 (* bytes of the file / stream: the callers append one line break [tail] unless
-   --strip-ending-line-break (tail = None).  COMMIT appends the *flag's* line break, which need not
-   be the file's own. *)
+   --strip-ending-line-break (tail = None): SELECT output the session's --line-break (processor.go), COMMIT
+   the file's own FileInfo.LineBreak (transaction.go since ec68d2d; the session's before), written in the
+   output's encoding (EncodeEndingLineBreak since 621cb1c). *)
+Definition ending_line_break (strip : bool) (lb : linebreak) : option linebreak :=
+  if strip then None else Some lb.
 Definition csv_file (o : wopts) (tail : option linebreak) (hdr : list str) (rows : list (list cell)) : option str :=
   match csv_encode o hdr rows with
   | None => None
